@@ -1,6 +1,6 @@
 (* C07 -- definitions freeze at first execution; clones are fully isolated.
    Only the property theorems; proofs are in proofs/EngineFacts.v. *)
-From V Require Import lib.Base model.TContext model.TTree model.TEscaper model.Engine spec.EngineSpec proofs.EngineFacts proofs.EngineHistFacts proofs.EngineInvFacts proofs.EngineOkFacts proofs.EngineIsoFacts.
+From V Require Import lib.Base model.TContext model.TTree model.TEscaper model.Engine spec.EngineSpec proofs.EngineFacts proofs.EngineHistFacts proofs.EngineInvFacts proofs.EngineOkFacts proofs.EngineIsoFacts proofs.EngineOwnFacts.
 
 (* in EVERY world: once the set is marked executed, Parse on any of its templates fails and
    changes nothing at all *)
@@ -75,12 +75,42 @@ Theorem C07_other_sets_objects_untouched : forall w op o,
 Proof. exact other_sets_objects_untouched. Qed.
 Print Assumptions C07_other_sets_objects_untouched.
 
-(* ... nor does any history of such operations.  (That the TREES of the other set's text templates are not
-   touched either needs an ownership invariant for text objects and associations that is not proved; on
-   the implementation it is decided by the projection oracle of the hist07 stream.) *)
+(* ... nor does any history of such operations.  (The TREES of the other set's text templates: see
+   C07_other_sets_trees_untouched below.) *)
 Theorem C07_other_sets_objects_untouched_hist : forall ops w o,
   Inv w -> (o < length (w_tmpl w))%nat ->
   other_ns_hist w (h_ns (get_tmpl w o)) ops ->
   get_tmpl (run_from w ops) o = get_tmpl w o.
 Proof. exact other_sets_objects_untouched_hist. Qed.
 Print Assumptions C07_other_sets_objects_untouched_hist.
+
+(* the ownership invariant behind the isolation of whole sets holds in every reachable world: every text
+   template listed in an association carries that association's number, name spaces and associations are
+   allocated in lock step, and the text template of every template object belongs to the association of the
+   object's name space *)
+Theorem C07_reachable_worlds_own_their_texts : forall ops, J (run_from world0 ops).
+Proof. exact J_reachable. Qed.
+Print Assumptions C07_reachable_worlds_own_their_texts.
+
+(* isolation, for everything else a set consists of: an operation through a handle of one name space leaves
+   the name-space record (members, executed flag, escaper state), the association and every text template
+   (its tree included) of every OTHER name space exactly as they were - clone, original or unrelated set *)
+Theorem C07_other_sets_trees_untouched : forall b w op,
+  J w -> (b < length (w_ns w))%nat ->
+  (forall a, op_ns w op = Some a -> a <> b) ->
+  let w' := fst (step w op) in
+  get_ns w' b = get_ns w b /\ get_common w' b = get_common w b /\
+  (forall nm tid, In (nm, tid) (get_common w b) -> get_text w' tid = get_text w tid).
+Proof. exact other_sets_trees_untouched. Qed.
+Print Assumptions C07_other_sets_trees_untouched.
+
+(* ... and the same after ANY history that follows ANY history, as long as none of the later operations
+   goes through a handle of that name space *)
+Theorem C07_other_sets_trees_untouched_hist : forall b ops0 ops,
+  let w := run_from world0 ops0 in
+  (b < length (w_ns w))%nat -> other_ns_hist w b ops ->
+  let w' := run_from w ops in
+  get_ns w' b = get_ns w b /\ get_common w' b = get_common w b /\
+  (forall nm tid, In (nm, tid) (get_common w b) -> get_text w' tid = get_text w tid).
+Proof. exact other_sets_trees_untouched_hist. Qed.
+Print Assumptions C07_other_sets_trees_untouched_hist.
